@@ -17,7 +17,7 @@ ASSUMPTIONS = [
     "observes it (C01)",
 ]
 MIN_NONTRIVIAL = {"quick": 10, "thorough": 40}
-SCHEDULES = ["fill-drain", "balanced", "trickle", "bursty", "consumer-stalls", "full-slow-consumer"]
+SCHEDULES = ["fill-drain", "balanced", "trickle", "bursty", "consumer-stalls", "full-slow-consumer", "packets"]
 
 
 def cases(tier, seed):
@@ -37,6 +37,8 @@ def cases(tier, seed):
                  schedule=SCHEDULES[k % len(SCHEDULES)], factor=r.randint(5, 14) if tier == "quick" else r.randint(5, 50),
                  cmd_ready_prob=r.choice([1.0, 0.7, 0.4]), extra_lat=r.choice([(0, 0), (0, 8), (0, 30)]),
                  long_stall=r.choice([0, 0, 0.01]), pre=r.choice([16, 16, 4]), post=r.choice([16, 16, 4]), seed="C13/%d/%d" % (seed, k))
+        if c["schedule"] == "packets":
+            c["long_stall"], c["extra_lat"] = 0, r.choice([(0, 0), (0, 8), (0, 30)])
         c["name"] = "%04d-%s-w%d-x%d-d%d-%s" % (k, "bypass" if bypass else "plain", dw, ratio, depth_words, c["schedule"])
         c["cost"] = depth_words * ratio * c["factor"]
         out.append(c)
@@ -60,8 +62,11 @@ def cases(tier, seed):
 class RatePlan:
     """piecewise-constant (producer valid probability, consumer ready probability) phases"""
 
+    GAP = 420
+
     def __init__(self, schedule, r, total):
         self.phases = []
+        self.checkpoints = []      # cycles at which everything pushed so far must have come out ("packets" schedule)
         t = 0
         while t < total * 40:
             ln = r.randint(60, 400)
@@ -73,6 +78,14 @@ class RatePlan:
                 p = (r.choice([0.05, 0.1]), r.choice([0.05, 1.0]))
             elif schedule == "bursty":
                 p = r.choice([(1.0, 1.0), (1.0, 0.0), (0.0, 1.0), (0.3, 0.3)])
+            elif schedule == "packets":
+                # short packets (1..8 producer cycles) separated by idle gaps, the consumer always ready: at the end of every
+                # gap the FIFO must be empty again (bounded latency: nothing may be withheld until the next word is pushed)
+                if len(self.phases) % 2 == 0:
+                    p, ln = (1.0, 1.0), r.randint(1, 8)
+                else:
+                    p, ln = (0.0, 1.0), self.GAP
+                    self.checkpoints.append(t + ln - 1)
             elif schedule == "full-slow-consumer":
                 # saturating producer; the consumer stalls until everything (pre FIFO, DRAM ring, reader FIFO, post FIFO) is
                 # full, then pops slowly and irregularly so that the whole path sits at "exactly full" for a long time
@@ -133,7 +146,11 @@ def run_case(c):
     mask = (1 << dw) - 1
     # unique tags: position folded into the word (wraps for 8-bit streams, so also compare positions by count)
     words = [((k * 2654435761) ^ (k >> 3)) & mask if dw > 8 else (k * 37 + (k >> 8)) & mask for k in range(total)]
+    if c["schedule"] == "packets":
+        total = min(total, 150)       # ~35 packets with an idle gap after each
     plan = RatePlan(c["schedule"], r, total)
+    checkpoints = set(plan.checkpoints)
+    withheld = []
     state = dict(sent=0, got=[], t_last=0, fsm_states=set(), trans=0, last_state=None, roundtrips=0)
     sink, source = dut.fifo.sink, dut.fifo.source
     has_fsm = c["bypass"]
@@ -166,6 +183,10 @@ def run_case(c):
                         state["roundtrips"] += 1
                     state["last_state"] = s
                 state["fsm_states"].add(s)
+            if cyc in checkpoints and i < total and len(state["got"]) != i and len(withheld) < 3:
+                withheld.append(dict(kind="words-withheld-while-idle", cycle=cyc, pushed=i, delivered=len(state["got"]),
+                                     idle_cycles_with_consumer_ready=plan.GAP,
+                                     note="producer idle and consumer ready for the whole gap, yet not everything pushed came out"))
             pv, pr = plan.at(cyc)
             if i >= total:
                 pr = max(pr, 0.5)     # producer finished: let the consumer drain
@@ -198,7 +219,7 @@ def run_case(c):
     cycles, reason = run_sim(dut, mem_procs + [driver()], done_fn, 2000000, wall_limit=900)
     if reason == "wall":
         return dict(verdict="inconclusive", why="wall-clock watchdog", violations=[], stats={}, nontrivial=False, signature="")
-    v = list(stub.events) + (stub.dfi_events() if c.get("core") else [])
+    v = list(stub.events) + (stub.dfi_events() if c.get("core") else []) + withheld
     got = state["got"]
     exp = words[:len(got)]
     if got != exp:
